@@ -49,6 +49,39 @@ pub fn block_on_timeout<F: Future>(fut: F, timeout: Duration) -> Option<F::Outpu
     }
 }
 
+/// `block_on_timeout` that gives up early once a thread has panicked since the call started and the future
+/// is still pending `grace` later (a query whose worker died never completes; waiting out the whole timeout
+/// for every such query makes the families that contain known defects take hours)
+pub fn block_on_timeout_panic_aware<F: Future>(fut: F, timeout: Duration, grace: Duration) -> Option<F::Output> {
+    let mut fut: Pin<Box<F>> = Box::pin(fut);
+    let waker: Waker = Arc::new(ThreadWaker(thread::current())).into();
+    let mut cx = Context::from_waker(&waker);
+    let start = std::time::Instant::now();
+    let deadline = start + timeout;
+    let before = panic_count();
+    let mut panic_seen: Option<std::time::Instant> = None;
+    loop {
+        match fut.as_mut().poll(&mut cx) {
+            Poll::Ready(v) => return Some(v),
+            Poll::Pending => {
+                let now = std::time::Instant::now();
+                if now >= deadline {
+                    return None;
+                }
+                if panic_seen.is_none() && panic_count() > before {
+                    panic_seen = Some(now);
+                }
+                if let Some(t) = panic_seen {
+                    if now >= t + grace {
+                        return None;
+                    }
+                }
+                thread::park_timeout((deadline - now).min(Duration::from_millis(40)));
+            }
+        }
+    }
+}
+
 #[derive(Debug, Clone, PartialEq)]
 pub enum Outcome<T> {
     Done(T),
